@@ -34,6 +34,7 @@ type State struct {
 	ctr      *int
 	lockLog  []string
 	spawned  []string
+	called   map[string]bool // names of the callees called so far on this path (spec builtin called(name))
 	last     map[string]Val // address -> value most recently stored there (valid until the class is written elsewhere)
 }
 
@@ -69,6 +70,10 @@ func (st *State) clone() *State {
 	n.trace = append([]string{}, st.trace...)
 	n.lockLog = append([]string{}, st.lockLog...)
 	n.spawned = append([]string{}, st.spawned...)
+	n.called = map[string]bool{}
+	for k, v := range st.called {
+		n.called[k] = v
+	}
 	return n
 }
 
